@@ -308,6 +308,13 @@ def life(sched: List[bool]) -> bool:
             elif scen == "peer_disc":
                 yield
                 sock.peer_closed = True
+            elif scen == "peer_disc_leftover":
+                # the peer sends two application requests and drops the connection at once: whatever of them is still parsed
+                # but unread, or half received, when the connection ends belongs to THIS connection only
+                yield
+                sock.inbox.append(_ids(build("app_req"), 21).dump() + _ids(build("app_req"), 22).dump()[:40])
+                yield
+                sock.peer_closed = True
             elif scen == "peer_reset":
                 yield
                 sock.recv_error = True
@@ -385,7 +392,9 @@ def life(sched: List[bool]) -> bool:
                 yield (lambda: boot.state() in ("I-Open", "R-Open"))
                 so.inbox.append(_ids(build("dwr_ok"), 77).dump())
                 yield (lambda: any(c == 280 and not r for c, r, _, _ in _cmds(so)))
-                done.append("ok")
+                a2 = boot.assoc
+                stale = a2.postprocess_recv_messages.qsize() + a2._recv_messages.qsize()
+                done.append("ok" if stale == 0 else f"{stale} message(s) of the previous connection surfaced on the new one")
             s2.spawn("N", peer2())
             s2.spawn("M", starter("second"), daemon=True)
             try:
@@ -411,6 +420,8 @@ LIFE = [
     ("life/server/peer_disc/consumer", {"role": "SERVER", "scen": "peer_disc", "consumer": True}),
     ("life/server/local_close", {"role": "SERVER", "scen": "local_close"}),
     ("life/server/peer_dpr", {"role": "SERVER", "scen": "peer_dpr"}),
+    ("life/client/peer_disc_leftover", {"role": "CLIENT", "scen": "peer_disc_leftover"}),
+    ("life/server/peer_disc_leftover", {"role": "SERVER", "scen": "peer_disc_leftover"}),
 ]
 
 
